@@ -2,7 +2,7 @@
     on any of the hash-container enumerations of `fit` (C20/VocabModel.v).  Built on the lemmas of
     C17/Proofs.v about the same transliterated mechanisms (bump, filter_vocab, sort_key, reindex,
     analyze). *)
-From Coq Require Import List NArith Bool String Arith Lia Permutation Sorted.
+From Coq Require Import List NArith ZArith Bool String Arith Lia Permutation Sorted SpecFloat.
 From LinfaVerif Require Import Common.Num C17.Model C17.Proofs C20.VocabModel.
 Import ListNotations.
 Local Open Scope string_scope.
@@ -76,7 +76,7 @@ Proof.
   rewrite Hk, <- Hv. apply nth_error_nth. exact Hj.
 Qed.
 
-Lemma col_of_map (g : string -> list nat) ks w :
+Lemma col_of_map {V} (g : string -> V) ks w :
   col_of w (map (fun k => (k, g k)) ks) = if mem w ks then Some (g w) else None.
 Proof.
   induction ks as [|k r IH]; simpl; auto.
@@ -99,6 +99,96 @@ Proof.
   - intros w. rewrite !col_of_map. rewrite (mem_perm w _ _ HP). reflexivity.
   - intros w c. rewrite col_of_map. destruct (mem w (keys e1)); congruence.
 Qed.
+
+(** ** the same for the tf-idf matrix *)
+Lemma nth_error_ext {A} : forall l1 l2 : list A, (forall i, nth_error l1 i = nth_error l2 i) -> l1 = l2.
+Proof.
+  induction l1 as [|a l1 IH]; intros [|b l2] H; auto.
+  - specialize (H 0%nat); discriminate.
+  - specialize (H 0%nat); discriminate.
+  - f_equal; [specialize (H 0%nat); simpl in H; congruence|].
+    apply IH; intros i; exact (H (S i)).
+Qed.
+
+Section TfIdfColumnsProofs.
+Context {F : Type} (o : NumOps F) (lnf : F -> F).
+
+Lemma sp_get_In j (l : list (nat * F)) v : NoDup (map fst l) -> In (j, v) l -> sp_get j l = Some v.
+Proof.
+  induction l as [|[i u] l IH]; simpl; [contradiction|]. intros HN [H|H].
+  - inversion H; subst. rewrite Nat.eqb_refl. reflexivity.
+  - inversion HN as [|? ? Hi HN']; subst. destruct (Nat.eqb_spec i j) as [->|N]; [|auto].
+    exfalso. apply Hi. apply (in_map fst) in H. exact H.
+Qed.
+
+Lemma sp_get_None j (l : list (nat * F)) : ~ In j (map fst l) -> sp_get j l = None.
+Proof.
+  induction l as [|[i u] l IH]; simpl; auto. intros H.
+  destruct (Nat.eqb_spec i j) as [->|N]; [exfalso; apply H; auto | apply IH; tauto].
+Qed.
+
+Lemma sp_get_sparsify (h : nat * nat -> F) j row :
+  sp_get j (map (fun p => (fst p, h p)) (sparsify row))
+  = if (0 <? nth j row 0)%nat then Some (h (j, nth j row 0%nat)) else None.
+Proof.
+  destruct (Nat.ltb_spec 0 (nth j row 0%nat)) as [L|L].
+  - apply sp_get_In.
+    + rewrite map_map. simpl. apply sparsify_NoDup.
+    + apply in_map_iff. exists (j, nth j row 0%nat). split; auto.
+      apply sparsify_In. split; auto. apply nth_error_nth'.
+      destruct (Nat.ltb_spec j (List.length row)); auto. rewrite nth_overflow in L by lia. lia.
+  - apply sp_get_None. rewrite map_map. simpl. intros H.
+    apply in_map_iff in H. destruct H as [[j' c] [E H]]. simpl in E. subst j'.
+    apply sparsify_In in H. destruct H as [H1 H2]. apply (nth_error_nth _ _ 0%nat) in H1. lia.
+Qed.
+
+Lemma tfidf_rows_length mt nmin nmax m docs :
+  List.length (tfidf_rows o lnf mt nmin nmax m docs) = List.length docs.
+Proof. unfold tfidf_rows, apply_tfidf, count_rows. rewrite !map_length. reflexivity. Qed.
+
+Lemma tfidf_word_columns_reindex mt nmin nmax (enum : vmap) docs : NoDup (keys enum) ->
+  tfidf_word_columns o lnf mt nmin nmax (reindex enum) docs
+  = map (fun w => (w, ref_tfidf_column o lnf mt nmin nmax docs w)) (keys enum).
+Proof.
+  intros HN. unfold tfidf_word_columns.
+  set (m := fst (reindex enum)). set (vec := snd (reindex enum)).
+  assert (Hv : vec = keys enum) by apply reindex_from_vec.
+  assert (Hk : keys m = keys enum) by apply reindex_from_keys.
+  assert (Hw : well_indexed m) by (apply reindex_well_indexed; exact HN).
+  assert (Hl : List.length m = List.length vec).
+  { rewrite Hv, <- Hk. unfold keys. rewrite map_length. reflexivity. }
+  rewrite <- Hv. apply map_combine_seq. intros j w Hj. simpl. f_equal.
+  assert (Hlt : (j < List.length m)%nat) by (rewrite Hl; apply nth_error_Some; congruence).
+  assert (Hnw : nth j (keys m) "" = w) by (rewrite Hk, <- Hv; apply nth_error_nth; exact Hj).
+  apply nth_error_ext. intros d. unfold ref_tfidf_column. rewrite !nth_error_map.
+  destruct (nth_error docs d) as [toks|] eqn:Ed.
+  - rewrite (tfidf_rows_entry o lnf mt nmin nmax m docs d toks Hw Ed). simpl. f_equal.
+    rewrite (sp_get_sparsify
+               (fun p => mul o (ofn o (snd p))
+                             (idf o lnf mt (List.length docs)
+                                  (df_ref (nth (fst p) (keys m) "") (map (ngrams nmin nmax) docs))))).
+    rewrite (analyze_entry nmin nmax m toks j Hw Hlt). simpl. rewrite Hnw. reflexivity.
+  - assert (E : nth_error (tfidf_rows o lnf mt nmin nmax m docs) d = None).
+    { apply nth_error_None. rewrite tfidf_rows_length. apply nth_error_None. exact Ed. }
+    rewrite E. reflexivity.
+Qed.
+
+Lemma tfidf_word_columns_enum_invariant mt nmin nmax (e1 e2 : vmap) docs :
+  NoDup (keys e1) -> Permutation (keys e1) (keys e2) ->
+  Permutation (tfidf_word_columns o lnf mt nmin nmax (reindex e1) docs)
+              (tfidf_word_columns o lnf mt nmin nmax (reindex e2) docs) /  (forall w, col_of w (tfidf_word_columns o lnf mt nmin nmax (reindex e1) docs)
+             = col_of w (tfidf_word_columns o lnf mt nmin nmax (reindex e2) docs)) /  (forall w c, col_of w (tfidf_word_columns o lnf mt nmin nmax (reindex e1) docs) = Some c ->
+               c = ref_tfidf_column o lnf mt nmin nmax docs w).
+Proof.
+  intros HN HP.
+  assert (HN2 : NoDup (keys e2)) by (eapply Permutation_NoDup; eauto).
+  rewrite (tfidf_word_columns_reindex mt nmin nmax e1 docs HN), (tfidf_word_columns_reindex mt nmin nmax e2 docs HN2).
+  repeat split.
+  - apply Permutation_map. exact HP.
+  - intros w. rewrite !col_of_map. rewrite (mem_perm w _ _ HP). reflexivity.
+  - intros w c. rewrite col_of_map. destruct (mem w (keys e1)); congruence.
+Qed.
+End TfIdfColumnsProofs.
 
 (** * 2. the vocabulary map up to provisional indices *)
 Definition strip (m : vmap) : list (string * nat) := map (fun e => (fst e, e_df e)) m.
@@ -356,7 +446,7 @@ Lemma fitted_enum_keys o1 o2 s docs : fair o1 -> fair o2 ->
   NoDup (keys (fitted_enum o1 s docs)) /\ Permutation (keys (fitted_enum o1 s docs)) (keys (fitted_enum o2 s docs)).
 Proof.
   intros (S1 & F1 & C1 & I1) (S2 & F2 & C2 & I2). unfold fitted_enum.
-  pose proof (read_docs_ord_NoDup o1 S1 (s_nmin s) (s_nmax s) docs) as HN.
+  pose proof (read_docs_ord_NoDup o1 (s_nmin s) (s_nmax s) docs) as HN.
   pose proof (read_docs_ord_strip o1 o2 (s_nmin s) (s_nmax s) docs S1 S2) as P.
   destruct (filter_vocab_ord_stage o1 o2 s (List.length docs) _ _ F1 F2 C1 C2 HN P) as [HNf Pf].
   split.
@@ -402,16 +492,16 @@ Definition ex_settings (cap : option nat) : settings :=
 
 (* the column order differs between two enumerations, the word -> column map does not *)
 Example ex_orders_differ :
-  snd (fit_ord id_orders (ex_settings None) ex_docs) <> snd (fit_ord (rot_orders 2) (ex_settings None) ex_docs) /\
+  snd (fit_ord id_orders (ex_settings None) ex_docs) <> snd (fit_ord (rot_orders 1) (ex_settings None) ex_docs) /\
   col_of "bb" (word_columns 1 1 (fit_ord id_orders (ex_settings None) ex_docs) ex_docs) = Some [1; 1; 0; 1]%nat /\
-  col_of "bb" (word_columns 1 1 (fit_ord (rot_orders 2) (ex_settings None) ex_docs) ex_docs) = Some [1; 1; 0; 1]%nat.
+  col_of "bb" (word_columns 1 1 (fit_ord (rot_orders 1) (ex_settings None) ex_docs) ex_docs) = Some [1; 1; 0; 1]%nat.
 Proof. vm_compute. repeat split; auto. intros H; discriminate H. Qed.
 
 (* max_features = 2 with document frequencies aa:2 bb:3 cc:2 dd:1 ee:1 - the tie aa/cc straddles the cut;
    the code keeps the greater word (Reverse(word)), under every enumeration *)
 Example ex_cut_tie :
   keys (fst (fit_ord id_orders (ex_settings (Some 2%nat)) ex_docs)) = ["bb"; "cc"] /\
-  keys (fst (fit_ord (rot_orders 3) (ex_settings (Some 2%nat)) ex_docs)) = ["cc"; "bb"].
+  keys (fst (fit_ord (rot_orders 2) (ex_settings (Some 2%nat)) ex_docs)) = ["cc"; "bb"].
 Proof. vm_compute. auto. Qed.
 
 (* a stable sort on the frequency alone keeps whichever tied word the map yields first *)
